@@ -37,6 +37,9 @@ def split_proto(tree):
         if tag == "proto" and data is not None:
             protos.append(data)
             return (tag, attrs, [walk(c) for c in children], b"<proto>")
+        if tag == "stream:error":
+            # (the condition and its text come in either order on the wire; their order carries nothing)
+            return (tag, attrs, sorted([walk(c) for c in children], key=lambda c: c[0]), data)
         return (tag, attrs, [walk(c) for c in children], data)
     return walk(tree), protos
 
